@@ -464,12 +464,33 @@ def tr_refined():
     return {'fallback': 'k+j*nt', 'subwarn': subwarn}
 
 
+def _carry_body(fn_body, c, base, args):
+    """m = replace(Base.from_mesh(self), _subdomains=self._subdomains).refined(<args>);
+    return replace(C.from_mesh(m), _subdomains=m._subdomains)"""
+    want = [f'm = replace({base}.from_mesh(self), _subdomains=self._subdomains).refined({args})',
+            f'return replace({c}.from_mesh(m), _subdomains=m._subdomains)']
+    return [t2.src(s) for s in fn_body] == want
+
+
+def _nodoc(fn):
+    return [s for s in fn.body if not (isinstance(s, ast.Expr) and isinstance(s.value, ast.Constant))]
+
+
 def tr_second(kind):
+    """how the second-order class refines uniformly: 'from_mesh' (all tags dropped, Mesh.refined applies the generic
+    fallback) or 'carry' (refined as the first-order class WITH the subdomains, which are copied back)"""
     f, c, base = SECOND[kind]
-    fn = t2.find_def(t2.parse(f), '_uniform', c)
-    body = [s for s in fn.body if not (isinstance(s, ast.Expr) and isinstance(s.value, ast.Constant))]
+    tree = t2.parse(f)
+    body = _nodoc(t2.find_def(tree, '_uniform', c))
     if len(body) == 1 and t2.src(body[0]) == f'return {c}.from_mesh({base}.from_mesh(self).refined())':
         return {'kind': kind, 'via': 'from_mesh', 'sub': 'none'}
+    if _carry_body(body, c, base, ''):
+        return {'kind': kind, 'via': 'carry', 'sub': base}
+    if len(body) == 1 and t2.src(body[0]) == 'return self._refined_linear()':
+        h = t2.find_def(tree, '_refined_linear', c)
+        if [a.arg for a in h.args.args] == ['self'] and h.args.vararg is not None and h.args.vararg.arg == 'args' \
+                and _carry_body(_nodoc(h), c, base, '*args'):
+            return {'kind': kind, 'via': 'carry', 'sub': base}
     raise TranslateError(f'{c}._uniform: unrecognised body: ' + ' ; '.join(t2.src(s) for s in body)[:200])
 
 
@@ -570,8 +591,22 @@ Definition gen_tet_submap (cls : list nat) (j k : nat) : nat :=
   else rank_in_cls cls k + j * nt
        + match nth k cls 0 with 0 => 0 | 1 => count_cls cls 0 | _ => count_cls cls 0 + count_cls cls 1 end.''')
     for k in SECOND:
-        parts.append(f'(* {SECOND[k][1]}._uniform = {SECOND[k][1]}.from_mesh({SECOND[k][2]}.from_mesh(self).refined()): '
-                     f'no tags survive, Mesh.refined applies the generic fallback *)')
-        eff[k] = 'fallback'
+        if sec[k]['via'] == 'from_mesh':
+            parts.append(f'(* {SECOND[k][1]}._uniform = {SECOND[k][1]}.from_mesh({SECOND[k][2]}.from_mesh(self).refined()): '
+                         f'no tags survive, Mesh.refined applies the generic fallback *)')
+            eff[k] = 'fallback'
+        else:
+            parts.append(f'(* {SECOND[k][1]}._uniform refines as {SECOND[k][2]} carrying the subdomains: same map as {SECOND[k][2]} *)')
+            eff[k] = eff[{'tri2': 'tri', 'quad2': 'quad', 'tet2': 'tet', 'hex2': 'hex'}[k]]
+    parts.append('''
+(* packaging of the pieces above *)
+Definition mk_spec tpls pb (oe of_ oc : nat -> nat -> nat -> nat) : spec :=
+  {| sp_tpls := tpls; sp_pblocks := pb;
+     sp_off := fun sz mE mF => {| offE := oe sz mE mF; offF := of_ sz mE mF; offC := oc sz mE mF |} |}.
+Definition line_spec := mk_spec gen_line_templates gen_line_pblocks gen_line_offE gen_line_offF gen_line_offC.
+Definition tri_spec := mk_spec gen_tri_templates gen_tri_pblocks gen_tri_offE gen_tri_offF gen_tri_offC.
+Definition quad_spec := mk_spec gen_quad_templates gen_quad_pblocks gen_quad_offE gen_quad_offF gen_quad_offC.
+Definition tet_spec := mk_spec gen_tet_templates gen_tet_pblocks gen_tet_offE gen_tet_offF gen_tet_offC.
+Definition hex_spec := mk_spec gen_hex_templates gen_hex_pblocks gen_hex_offE gen_hex_offF gen_hex_offC.''')
     txt = '\n'.join(parts) + '\n'
     return txt, {'res': res, 'refined': ref, 'second': sec, 'effective_submap': eff}
